@@ -282,7 +282,9 @@ func (w *worker) runOne(in *Input) Result {
 	if returned || in.Entry == "globals" {
 		res.Leaks = leaks
 	}
-	if in.Trace && returned {
+	if in.Trace && returned && in.Entry != "globals" {
+		// (ParseGlobals makes one parse.Expr call per line: its hook state is
+		// judged per call by the tracer, but only single-call traces go to TLC)
 		res.Events = encodeEvents(events)
 	}
 	if in.Prof && d.pan == nil {
